@@ -54,6 +54,7 @@ def make_dirfile(d, rng, variant):
            "win WINDOW data fast GT 3", "mpx MPLEX data fast 1 3", "cst CONST INT16 4", "cf CONST FLOAT64 2.5",
            "car CARRAY INT32 1 2 3 4 5 6", "str STRING \"hello world\"", "sar SARRAY a \"b c\" d",
            "ind INDIR data car", "sind SINDIR data sar", "bitc BIT data cst car<2>",
+           "nofile RAW UINT16 1", "lutbad LINTERP data missing.lut",     # gd_spf succeeds, gd_getdata fails (no data file / no table)
            "/ALIAS al data", "/ALIAS al2 al", "/HIDDEN bit", "data/meta CONST UINT8 7", "data/ms STRING ms",
            "data/mc CARRAY UINT8 1 2", "/ALIAS data/mal data/meta", "/REFERENCE data", "/INCLUDE sub.format A_ _Z"]
     sub = ["/ENCODING none", "/FRAMEOFFSET 1", "x RAW UINT16 1", "y LINCOM x 2 0", "xc CONST UINT8 1"]
@@ -345,7 +346,10 @@ def main():
         fieldsets = [["fdata"], ["edata", "iflt", "ubit"], ["ifast", "uf2"], ["xdata", "ifast"], ["glin", "Eph", "omul", "Xcst"],
                      ["fnosuchfield"], ["idata", "flut", "gA_x_Z"], ["ff2"], ["adata", "Gpoly"],
                      ["idata", "ifast"], ["ibit", "xf2", "ifast"], ["udata", "if2", "emul"], ["isbit", "odata"],
-                     ["Edata", "Xfast", "Fflt"], ["Gflt", "Aflt", "aflt"], ["eflt", "ffast", "gf2"], ["Xf2", "xdata", "odata", "udata"]] + ([["fdang"]] if variant == 1 else [])
+                     ["Edata", "Xfast", "Fflt"], ["Gflt", "Aflt", "aflt"], ["eflt", "ffast", "gf2"], ["Xf2", "xdata", "odata", "udata"],
+                     # a field whose read fails, first / in the middle / last on the command line: the tool must fail
+                     ["fnofile", "fdata"], ["ilutbad", "ifast"], ["fdata", "xnofile", "fflt"], ["idata", "ulutbad", "ufast", "gflt"],
+                     ["fdata", "flutbad"], ["enofile"]] + ([["fdang"]] if variant == 1 else [])
         ranges = [(0, 0), (1, 3), (2, 0), (n - 1, 1), (n, 2), (0, n + 3), (-1, 2), (3, 1)]
         for fs in fieldsets:
             for (ff, nf) in (ranges if chk.thorough else sub.sample(ranges, 4) + [(0, n + 3)]):
